@@ -253,6 +253,44 @@ pub fn sweep<'a>(
     n
 }
 
+/// Pair sweep: two hint generators replaced at once (coordinated lies). Pairs are taken
+/// between neighbours in creation order (gadgets allocate their related hints back to back)
+/// and at random; one alternative per member is drawn for each pair.
+pub fn sweep_pairs<'a>(
+    circ: &Circuit,
+    inputs: &[(Target, F)],
+    base_witness: &PartitionWitness<'a, F>,
+    gens: &[usize],
+    rng: &mut Rng,
+    n_pairs: usize,
+    mut on: impl FnMut(usize, usize, &Alt, &Alt, Outcome),
+) -> usize {
+    if gens.len() < 2 {
+        return 0;
+    }
+    let mut n = 0;
+    for _ in 0..n_pairs {
+        let a = rng.usize(gens.len());
+        let b = if rng.chance(2, 3) { (a + 1 + rng.usize(3)).min(gens.len() - 1) } else { rng.usize(gens.len()) };
+        if a == b {
+            continue;
+        }
+        let (ga, gb) = (gens[a], gens[b]);
+        let alts_a = alternatives(class_of(&circ.gen_ids[ga]), &circ.outputs_in(base_witness, ga), rng);
+        let alts_b = alternatives(class_of(&circ.gen_ids[gb]), &circ.outputs_in(base_witness, gb), rng);
+        if alts_a.is_empty() || alts_b.is_empty() {
+            continue;
+        }
+        let xa = alts_a[rng.usize(alts_a.len())].clone();
+        let xb = alts_b[rng.usize(alts_b.len())].clone();
+        let repl = vec![Replace { gen: ga, values: xa.values.clone() }, Replace { gen: gb, values: xb.values.clone() }];
+        let outcome = circ.eval(inputs, &repl);
+        n += 1;
+        on(ga, gb, &xa, &xb, outcome);
+    }
+    n
+}
+
 /// All hint-class generator indices of a circuit.
 pub fn hint_gens(circ: &Circuit) -> Vec<usize> {
     circ.gen_ids
